@@ -216,45 +216,50 @@ static void exec_io(const Plan &p, RunResult &r) {
     export_all(wc2, &Bl, objs);
     r.faults.add(wc.transport ? "F-chunk-stream" : "F-chunk-file");
     r.ev.bytes(A.bytes.data(), A.bytes.size());
-    if (A.bytes != Bl.bytes) {
-        size_t d = 0; while (d < A.bytes.size() && d < Bl.bytes.size() && A.bytes[d] == Bl.bytes[d]) d++;
-        r.v.raise("transport-bytes-differ", "C05.transports", fmt("FILE* and ostream exports differ at byte %zu (lengths %zu / %zu)", d, A.bytes.size(), Bl.bytes.size()));
-    }
-    // 2. import the sequence back, in order, through one reader
-    std::vector<Obj> back;
-    ReadState rs; rs.data = &A.bytes; rs.c = rc;
-    FILE *f = nullptr; StoreInBuf *sb = nullptr; std::istream *is = nullptr;
-    if (rc.transport == 0) f = open_file_reader(&rs); else { sb = new StoreInBuf(&rs); is = new std::istream(sb); }
-    for (size_t i = 0; i < objs.size() && !r.v.set; i++) {
-        ImpArgs a{&objs[i], f, is, Obj()};
-        Outcome oc = guarded_call(do_import, &a);
-        if (oc != O_RETURNED) { r.v.raise("import-terminated", "C05.import", fmt("import of a complete valid %s (object %zu of the stream) ended with %s", kind_name(objs[i].kind), i, outcome_name(oc)), (int) i); break; }
-        if (is && (is->fail() || is->bad())) { r.v.raise("import-failed-stream", "C05.import", fmt("stream failed while importing valid %s (object %zu)", kind_name(objs[i].kind), i), (int) i); obj_free(a.out); break; }
-        back.push_back(a.out);
-        std::string why;
-        if (!obj_equal(objs[i], a.out, &why))
-            r.v.raise("roundtrip-differs", "C05.fields", fmt("%s (object %zu of %zu, transport %s->%s): %s", kind_name(objs[i].kind), i, objs.size(), wc.transport ? "stream" : "FILE", rc.transport ? "stream" : "FILE", why.c_str()), (int) i);
-    }
-    if (!r.v.set) {
-        // 4. every import consumed exactly its own bytes: nothing is left in the stream
-        bool eof = f ? (fgetc(f) == EOF) : (is->peek() == std::char_traits<char>::eof());
-        if (!eof) r.v.raise("trailing-bytes", "C05.boundaries", "bytes left in the stream after importing every object of the sequence");
-    }
-    if (f) fclose(f);
-    if (is) { delete is; delete sb; }
-    if (rs.short_reads) r.faults.add("F-short", rs.short_reads);
-    r.probes.add(fmt("objects_%s", objs.size() > 1 ? "sequence" : "single"));
-    // 3. re-export of the imported objects yields identical bytes
-    if (!r.v.set && back.size() == objs.size()) {
-        WriteLog C; export_all(wc2, &C, back);
-        if (C.bytes != A.bytes) {
-            size_t d = 0; while (d < A.bytes.size() && d < C.bytes.size() && A.bytes[d] == C.bytes[d]) d++;
-            r.v.raise("reexport-differs", "C05.idempotent", fmt("re-export of the imported sequence differs at byte %zu", d));
+    // 2.-4. for a written stream: import the sequence back in order through one reader, compare field for field, check that nothing
+    //        is left, re-export on the transport that wrote it and compare the bytes
+    auto roundtrip = [&](const WriteLog &Wl, const WireCfg &wcfg, const WireCfg &rcfg) {
+        std::vector<Obj> back;
+        ReadState rs; rs.data = &Wl.bytes; rs.c = rcfg;
+        FILE *f = nullptr; StoreInBuf *sb = nullptr; std::istream *is = nullptr;
+        if (rcfg.transport == 0) f = open_file_reader(&rs); else { sb = new StoreInBuf(&rs); is = new std::istream(sb); }
+        for (size_t i = 0; i < objs.size() && !r.v.set; i++) {
+            ImpArgs a{&objs[i], f, is, Obj()};
+            Outcome oc = guarded_call(do_import, &a);
+            if (oc != O_RETURNED) { r.v.raise("import-terminated", "C05.import", fmt("import of a complete valid %s (object %zu of the stream) ended with %s", kind_name(objs[i].kind), i, outcome_name(oc)), (int) i); break; }
+            if (is && (is->fail() || is->bad())) { r.v.raise("import-failed-stream", "C05.import", fmt("stream failed while importing valid %s (object %zu)", kind_name(objs[i].kind), i), (int) i); obj_free(a.out); break; }
+            back.push_back(a.out);
+            std::string why;
+            if (!obj_equal(objs[i], a.out, &why))
+                r.v.raise("roundtrip-differs", "C05.fields", fmt("%s (object %zu of %zu, transport %s->%s): %s", kind_name(objs[i].kind), i, objs.size(), wcfg.transport ? "stream" : "FILE", rcfg.transport ? "stream" : "FILE", why.c_str()), (int) i);
         }
+        if (!r.v.set) {
+            bool eof = f ? (fgetc(f) == EOF) : (is->peek() == std::char_traits<char>::eof());
+            if (!eof) r.v.raise("trailing-bytes", "C05.boundaries", "bytes left in the stream after importing every object of the sequence");
+        }
+        if (f) fclose(f);
+        if (is) { delete is; delete sb; }
+        if (rs.short_reads) r.faults.add("F-short", rs.short_reads);
+        if (!r.v.set && back.size() == objs.size()) {
+            WriteLog C; export_all(wcfg, &C, back);
+            if (C.bytes != Wl.bytes) {
+                size_t d = 0; while (d < Wl.bytes.size() && d < C.bytes.size() && Wl.bytes[d] == C.bytes[d]) d++;
+                r.v.raise("reexport-differs", "C05.idempotent", fmt("re-export of the imported sequence differs at byte %zu", d));
+            }
+        }
+        for (auto &o : back) obj_free(o);
+    };
+    roundtrip(A, wc, rc);
+    r.probes.add(fmt("objects_%s", objs.size() > 1 ? "sequence" : "single"));
+    if (A.bytes != Bl.bytes && !r.v.set) {
+        // the two transports need not produce the same bytes (the property speaks of each of them): the second stream then has to
+        // stand on its own, read back through its own transport
+        r.probes.add("transports_write_different_bytes");
+        WireCfg rc2 = rc; rc2.transport = wc2.transport;
+        roundtrip(Bl, wc2, rc2);
     }
     uint64_t kinds_mask = 0;
     for (auto &o : objs) { kinds_mask |= 1ull << o.kind; r.probes.add(std::string("kind_") + kind_name(o.kind)); }
-    for (auto &o : back) obj_free(o);
     for (auto &o : objs) obj_free(o);
     for (auto it = varfix.rbegin(); it != varfix.rend(); ++it) *it->p = it->old;
     Hash ch; ch.str(p.cfg.str()); for (auto &o : p.ops) ch.str(o.gets("kind") + o.gets("content"));
